@@ -140,11 +140,18 @@ fn accessors(file: &Path) -> String {
   }
   let text = fs::read_to_string(file).unwrap_or_default();
   let head = "\nimpl<'a, Item> {T}<'a, Item> where Item: Clone + Send + Sync {\n  pub fn verif_observer_count(&self) -> usize { {E} }\n}\n";
+  // if the expected field is not there (a refactoring renamed it) the accessor still exists
+  // and answers usize::MAX = "unknown": the count-based sub-checks are skipped, everything
+  // else keeps working
+  let unknown = "usize::MAX";
   let (ty, expr) = match name {
-    "subject.rs" if text.contains("observers:") => ("Subject", "self.observers.read().unwrap().len()"),
-    "behavior_subject.rs" if text.contains("subject:") => ("BehaviorSubject", "self.subject.verif_observer_count()"),
-    "replay_subject.rs" if text.contains("subject:") => ("ReplaySubject", "self.subject.verif_observer_count()"),
-    "async_subject.rs" if text.contains("subject:") => ("AsyncSubject", "self.subject.verif_observer_count()"),
+    "subject.rs" => (
+      "Subject",
+      if text.contains("observers: Arc<RwLock<HashMap<") { "self.observers.read().unwrap().len()" } else { unknown },
+    ),
+    "behavior_subject.rs" => ("BehaviorSubject", if text.contains("subject: Arc<subject::Subject<") { "self.subject.verif_observer_count()" } else { unknown }),
+    "replay_subject.rs" => ("ReplaySubject", if text.contains("subject: Arc<subject::Subject<") { "self.subject.verif_observer_count()" } else { unknown }),
+    "async_subject.rs" => ("AsyncSubject", if text.contains("subject: Arc<subject::Subject<") { "self.subject.verif_observer_count()" } else { unknown }),
     _ => return String::new(),
   };
   head.replace("{T}", ty).replace("{E}", expr)
